@@ -191,7 +191,7 @@ Definition sqlite_driver : DiffDriver :=
            (fun _ _ => false)                   (* ForeignKeyAttrChanged *)
            sqlite_table_attr_diff
            sqlite_normalize
-           true.                                (* *diff has no SupportChange method *)
+           false.                               (* sql/sqlite/driver_oss.go: diff.SupportChange(RenameConstraint) = false *)
 
 Definition no_skip (_ : tag) : bool := false.
 
